@@ -3,7 +3,8 @@ REPO_SRCS = ["src/Factored/Utils/Core.cpp", "src/Factored/Utils/FactoredVectorOp
              "src/Factored/Utils/BayesianNetwork.cpp", "src/Factored/Utils/FactoredMatrix2DOps.cpp", "src/Seeder.cpp",
              "src/Factored/MDP/Algorithms/CooperativeQLearning.cpp", "src/Factored/MDP/Algorithms/JointActionLearner.cpp",
              "src/Factored/MDP/Utils.cpp", "src/Factored/MDP/CooperativeModel.cpp", "src/Factored/Utils/FasterTrie.cpp",
-             "src/Factored/Bandit/Algorithms/Utils/VariableElimination.cpp", "src/MDP/Algorithms/QLearning.cpp", "src/MDP/Utils.cpp"]
+             "src/Factored/Bandit/Algorithms/Utils/VariableElimination.cpp", "src/MDP/Algorithms/QLearning.cpp", "src/MDP/Utils.cpp",
+             "src/Factored/MDP/Algorithms/SparseCooperativeQLearning.cpp", "src/Factored/Utils/Trie.cpp"]
 AXIOM_ALLOW = []
 TRUSTED_BASE = ["size_t modelled as unbounded nat (no wrap-around in the modelled range)",
                 "Eigen vectors/matrices modelled as lists of exact rationals; unchecked reads default to 0 in the model "
@@ -219,6 +220,16 @@ def gen_alg(rng, kind):
 ALG_KINDS = ["bfop", "bfop", "subop", "fv", "fv", "fv", "fv", "fv", "fv"]
 
 # ---------------------------------------------------------------- DDN -------------------------
+def rdist_small(rng, n, kmax=12):
+    """a probability row with one or more tiny dyadic entries 2^-7 .. 2^-kmax (exact in doubles)"""
+    if n == 1: return ["1"]
+    ks = [rng.randint(7, kmax) for _ in range(n - 1)]
+    big = 2 ** kmax
+    parts = [big >> k for k in ks]
+    parts.append(big - sum(parts))
+    rng.shuffle(parts)
+    return ["%d/%d" % (p, big) for p in parts]
+
 def rdist(rng, n):
     """a probability row with entries k/4"""
     cuts = sorted(rng.randint(0, 4) for _ in range(n - 1))
@@ -235,6 +246,11 @@ def PS(ps): return "%s %d %s" % (L(ps[0]), len(ps[1]), " ".join(L(f) for f in ps
 def gen_ddn(rng, kind):
     S = [rng.choice([1, 2, 2, 3]) for _ in range(rng.choice([1, 2, 2, 3]))]
     A = [rng.choice([1, 2, 2, 3]) for _ in range(rng.choice([1, 2]))]
+    if kind == "cmodel":
+        S = [rng.choice([2, 2, 3]) for _ in range(rng.choice([2, 2, 3]))]
+        A = [rng.choice([2, 3, 3, 4]) for _ in range(rng.choice([2, 2, 3]))]
+        if rng.random() < 0.7:          # make S[k] != A[k] on the shared positions
+            A = [a if k >= len(S) or a != S[k] else a + 1 for k, a in enumerate(A)]
     if kind == "ddnpush":
         out = []
         for _ in range(rng.randint(1, len(S) + 1)):
@@ -250,11 +266,24 @@ def gen_ddn(rng, kind):
             elif r < 0.75 and len(ag) > 1: ag = ag[::-1]
             out.append((ag, fs))
         return "ddnpush %s %s %d %s" % (L(S), L(A), len(out), " ".join(PS(p) for p in out))
+    small = kind == "ddnsmall"
+    if small:
+        # >= 3 nodes with tiny (exact, dyadic) local probabilities: products of 2-4 nodes fall below 1e-6
+        S = [rng.choice([2, 2, 3]) for _ in range(rng.choice([3, 3, 4]))]
+        if prod(S) > 36: S = [2] * len(S)
     pss = [rparentset(rng, S, A) for _ in S]
+    kmax = 12 if len(S) <= 3 else 10
     mats = []
     for i, (ag, fs) in enumerate(pss):
         rows = sum(prod(S[k] for k in f) for f in fs)
-        mats.append("%d %d %s" % (rows, S[i], " ".join(" ".join(rdist(rng, S[i])) for _ in range(rows))))
+        mk = (lambda: rdist_small(rng, S[i], kmax)) if small else (lambda: rdist(rng, S[i]))
+        mats.append("%d %d %s" % (rows, S[i], " ".join(" ".join(mk()) for _ in range(rows))))
+    if kind == "cmodel":
+        # reward bases with multi-agent action tags; S and A shapes differ
+        rew = [rbm(rng, S, A, None, sorted(rng.sample(range(len(A)), rng.randint(1, len(A))))) for _ in range(rng.randint(1, 3))]
+        qs = ["%s %s" % (L([rng.randrange(x) for x in S]), L([rng.randrange(x) if rng.random() < 0.3 else x - 1 for x in A])) for _ in range(3)]
+        return "cmodel %s %s %s %s %s %s 3 %s" % (L(S), L(A), " ".join(PS(p) for p in pss), " ".join(mats), FM(rew),
+                                                  rng.choice(["1/2", "3/4", "1"]), " ".join(qs))
     qs = []
     for _ in range(2):
         qs.append("%s %s" % (L([rng.randrange(x) for x in S]), L([rng.randrange(x) for x in A])))
@@ -323,6 +352,38 @@ def gen_2d(rng, kind):
 # ---------------------------------------------------------------- learners --------------------
 def gen_learn(rng, kind):
     disc = rng.choice(["1/2", "3/4", "1"]); alpha = rng.choice(["1/2", "1/4", "1"])
+    if kind in ("sparse1", "sparseg"):
+        S = [rng.choice([1, 2, 2, 3]) for _ in range(rng.choice([1, 2]))]
+        A = [rng.choice([1, 2, 2]) for _ in range(rng.choice([1, 2, 2, 4]) if kind == "sparse1" else 2)]
+        NS, NA = prod(S), prod(A)
+        def digits(sp, i):
+            out = []
+            for x in sp: out.append(i % x); i //= x
+            return out
+        rules = []
+        if kind == "sparse1":           # one rule per full (s, a): a flat table in disguise
+            for si in range(NS):
+                for ai in range(NA):
+                    rules.append((list(range(len(S))), digits(S, si), list(range(len(A))), digits(A, ai), Q(rng.randint(-4, 4))))
+        else:
+            # every agent alone for every (partial state, own action), plus a few pair rules: each agent is
+            # then in 1 or 2 matching rules for any (s, a)
+            for ag in range(len(A)):
+                sk = rkeys(rng, len(S))
+                for si in range(prod(S[k] for k in sk)):
+                    for av in range(A[ag]):
+                        rules.append((sk, digits([S[k] for k in sk], si), [ag], [av], Q(rng.randint(-4, 4))))
+            sk = rkeys(rng, len(S))
+            for si in range(prod(S[k] for k in sk)):
+                for ai in range(NA):
+                    rules.append((sk, digits([S[k] for k in sk], si), [0, 1], digits(A, ai), Q(rng.randint(-4, 4))))
+        hist = []
+        for _ in range(rng.randint(1, 5)):
+            hist.append("%s %s %s %s" % (L([rng.randrange(x) for x in S]), L([rng.randrange(x) for x in A]),
+                                         L([rng.randrange(x) for x in S]),
+                                         LQ([Q(rng.choice([-8, -5, -3, -2, -1, 1, 2, 3, 4, 6, 7])) for _ in A])))
+        return "sparse %s %s %d %s %s %s %d %s" % (L(S), L(A), len(rules),
+                " ".join("%s %s %s %s %s" % (L(r[0]), L(r[1]), L(r[2]), L(r[3]), r[4]) for r in rules), disc, alpha, len(hist), " ".join(hist))
     if kind == "jal":
         nS = rng.randint(1, 3)
         A = [rng.choice([1, 2, 2, 3]) for _ in range(rng.choice([1, 2, 2, 3]))]
@@ -371,11 +432,11 @@ def gen(rng, tier):
         elif u < 0.72:
             c = gen_alg(rng, rng.choice(ALG_KINDS))
         elif u < 0.80:
-            c = gen_learn(rng, rng.choice(["jal", "jal", "coop1", "coop1", "coopg", "coopg"]))
-        elif u < 0.90:
+            c = gen_learn(rng, rng.choice(["jal", "jal", "coop1", "coop1", "coopg", "coopg", "sparse1", "sparse1", "sparseg"]))
+        elif u < 0.88:
             c = gen_2d(rng, rng.choice(["facout", "facout", "flatb", "fm", "fm", "fm", "fm"]))
         else:
-            c = gen_ddn(rng, rng.choice(["ddn", "ddn", "ddnpush"]))
+            c = gen_ddn(rng, rng.choice(["ddn", "ddn", "ddnsmall", "ddnsmall", "cmodel", "cmodel", "ddnpush"]))
         if c is not None:
             out.append(c)
     return out
